@@ -113,6 +113,8 @@ class Reach:
         self.on = False
 
     def add(self, label, func):
+        if func is None:      # a helper the tree under test does not have (any more): nothing to count
+            return
         code = code_of(func)
         self.codes[code] = label
         self.counts.setdefault(label, 0)
